@@ -584,7 +584,11 @@ func (ev *sqlEnv) eval(e *sqlExpr) sqlVal {
 			}
 			return sqlVal{i: sqlInstr(h.s, n.s)}
 		case "substr":
-			p.unsupported("sql: substr")
+			sv, st := ev.eval(e.args[0]), ev.eval(e.args[1])
+			if !sv.isText() || st.isText() || len(e.args) != 2 {
+				p.unsupported("sql: substr form")
+			}
+			return sqlVal{s: p.sqlSubstr(sv.s, st.i)}
 		case "replace":
 			s, from, to := ev.eval(e.args[0]), ev.eval(e.args[1]), ev.eval(e.args[2])
 			if !s.isText() || !from.isText() || !to.isText() {
@@ -675,6 +679,26 @@ func sqlInstr(h, n *StrVal) *Term {
 		res = Ite(m, idx, res)
 	}
 	return res
+}
+
+// sqlSubstr: substr(s, start) with a 1-based character index; forks on the start value and on
+// whether bytes are UTF-8 continuation bytes (only where the alphabet allows them).
+func (p *Path) sqlSubstr(s *StrVal, start *Term) *StrVal {
+	k := int64(p.Concretize(start, "sql.substr.start"))
+	if k <= 1 {
+		return s
+	}
+	chars := int64(0)
+	for i, b := range s.B {
+		isCont := Eq(BAnd(b, BVC(8, 0xC0)), BVC(8, 0x80))
+		if !p.Branch(isCont) {
+			chars++
+			if chars == k {
+				return StrFromTerms(s.B[i:])
+			}
+		}
+	}
+	return StrC("")
 }
 
 // sqlReplace: left-to-right non-overlapping replacement; forks on each possible match position.
